@@ -128,3 +128,14 @@ package hopserver
 //@   requires !sess.usingAuthGrant
 //@ func (sess *hopSession) start()
 //@   property C07
+
+// ---- C07: target-side intent policy ---------------------------------------
+// A grant is only stored (AddAuthGrant runs after this check) for an intent that has not expired at the instant the
+// clock was read, that names the user THIS session is logged in as, whose delegate certificate is a leaf, and whose
+// grant type is one of the four known ones.
+// (certs.VerifyLeafFormat's contract is in package certs, proved under C04)
+//@ func (sess *hopSession) checkIntent(intent authgrants.Intent, principalCert *certs.Certificate) (err error)
+//@   property C07
+//@   pure
+//@   ensures err == nil ==> !before(intent.ExpTime, resultof(time.Now, t)) && sess.user == intent.TargetUsername && intent.DelegateCert.Type == certs.Leaf &&
+//@        (intent.GrantType == authgrants.Shell || intent.GrantType == authgrants.Command || intent.GrantType == authgrants.LocalPF || intent.GrantType == authgrants.RemotePF)
